@@ -11,6 +11,7 @@ import (
 	"strconv"
 	"strings"
 	"sync"
+	"unicode/utf8"
 	"unsafe"
 
 	"github.com/goccy/go-json/internal/errors"
@@ -232,7 +233,93 @@ func (m *Mapslice) Len() int {
 }
 
 func (m *Mapslice) Less(i, j int) bool {
-	return bytes.Compare(m.Items[i].Key, m.Items[j].Key) < 0
+	return compareMapKeys(m.Items[i].Key, m.Items[j].Key) < 0
+}
+
+// compareMapKeys orders two recorded member keys by the key strings they spell, as
+// encoding/json orders the members of a map. A recorded key is what was written for it:
+// a JSON string, possibly wrapped in colour codes, followed by a separator. Comparing those
+// bytes would let the closing quote and the escape sequences take part ( "a" after "a b",
+// "\n" after " " ).
+func compareMapKeys(a, b []byte) int {
+	ka, plainA := mapKeyText(a)
+	kb, plainB := mapKeyText(b)
+	if !plainA {
+		ka = unescapeMapKey(ka)
+	}
+	if !plainB {
+		kb = unescapeMapKey(kb)
+	}
+	return bytes.Compare(ka, kb)
+}
+
+// mapKeyText returns the text between the quotes of a recorded key and whether it is free of
+// escape sequences.
+func mapKeyText(key []byte) ([]byte, bool) {
+	start := bytes.IndexByte(key, '"')
+	if start < 0 {
+		return key, true
+	}
+	start++
+	plain := true
+	for i := start; i < len(key); i++ {
+		switch key[i] {
+		case '\\':
+			plain = false
+			i++
+		case '"':
+			return key[start:i], plain
+		}
+	}
+	return key[start:], plain
+}
+
+// unescapeMapKey undoes the escape sequences the string writers produce.
+func unescapeMapKey(text []byte) []byte {
+	out := make([]byte, 0, len(text))
+	for i := 0; i < len(text); i++ {
+		c := text[i]
+		if c != '\\' || i+1 >= len(text) {
+			out = append(out, c)
+			continue
+		}
+		i++
+		switch text[i] {
+		case 'b':
+			out = append(out, '\b')
+		case 'f':
+			out = append(out, '\f')
+		case 'n':
+			out = append(out, '\n')
+		case 'r':
+			out = append(out, '\r')
+		case 't':
+			out = append(out, '\t')
+		case 'u':
+			if i+4 < len(text) {
+				var r rune
+				for _, h := range text[i+1 : i+5] {
+					r <<= 4
+					switch {
+					case '0' <= h && h <= '9':
+						r |= rune(h - '0')
+					case 'a' <= h && h <= 'f':
+						r |= rune(h-'a') + 10
+					case 'A' <= h && h <= 'F':
+						r |= rune(h-'A') + 10
+					}
+				}
+				i += 4
+				var buf [4]byte
+				out = append(out, buf[:utf8.EncodeRune(buf[:], r)]...)
+				continue
+			}
+			out = append(out, 'u')
+		default:
+			out = append(out, text[i]) // \" \\ \/
+		}
+	}
+	return out
 }
 
 func (m *Mapslice) Swap(i, j int) {
